@@ -113,7 +113,7 @@ pub fn run_world_t(plan: &Rc<Plan>) -> Result<History, String> {
     let ended2 = Rc::clone(&ended);
     // Half of the runs poll the whole pipeline inside a span of the caller's own (a user who
     // `#[instrument]`s the test main): the scenario span is then not the root of the scope.
-    let outer_span = plan.seed % 2 == 1;
+    let outer_span = plan.seed % 2 == 1 && !plan.plain_logs;
     let fut = async move {
         let _wr = cuc.filter_run((), |_, _, _| true).await;
         ended2.set(true);
